@@ -2131,3 +2131,10 @@ m("C10", "explicit-element-keeps-implicit-on", ZP,
   '''        if (I18N, 'name') in ns:''')
 m("C10", "implicit-stack-not-popped", ZP,
   "        self._implicit_translation.pop()\n", "")
+
+m("C10", "default-content-untranslated", ZP,
+  '''                if translate:
+                    # When the value is ``default``, the original
+                    # content stands in for it: it is the message then.
+                    content = nodes.Translate('', content)
+''', "")
